@@ -246,7 +246,15 @@ Definition short_name (n : node) : res str :=
     Ok (if nonempty result then lit "random." ++ mangle_string result else lit "random")
   end.
 
-(* keyword arguments a router node passes to BaseNode.initiate_row_models: row type + fields *)
+(* keyword arguments a router node passes to BaseNode.initiate_row_models: row type + fields.
+   Two regenerated probes (translator/tables_c04.py) select between the behaviour recorded in
+   findings.d/C04.json and its repair:
+   [split_rows_carry_save_name]: the rows of routers that do not wait carry the result name too;
+   [group_split_without_cases_exports]: a group split without any case gets a row naming no group
+   (router.cases[0] raised IndexError before). *)
+Definition split_save_name (result : str) : pay :=
+  if split_rows_carry_save_name then [fld "save_name" (PS result)] else [].
+
 Definition router_kwargs (r : srouter) : res (str * pay) :=
   match sw_wait r with
   | Some w =>
@@ -255,20 +263,24 @@ Definition router_kwargs (r : srouter) : res (str * pay) :=
   | None =>
     if str_eqb (sw_operand r) groups_operand then
       match sw_cases r with
-      | [] => Err ECrash
+      | [] =>
+        if group_split_without_cases_exports
+        then Ok (lit "split_by_group", [fld "mainarg_groups" (PL []); fld "obj_id" (PS [])] ++ split_save_name (sw_result r))
+        else Err ECrash
       | k :: _ =>
         match case_arg1 k, case_arg0 k with
-        | Some g, Some a0 => Ok (lit "split_by_group", [fld "mainarg_groups" (PL [g]); fld "obj_id" a0])
+        | Some g, Some a0 =>
+          Ok (lit "split_by_group", [fld "mainarg_groups" (PL [g]); fld "obj_id" a0] ++ split_save_name (sw_result r))
         | _, _ => Err ECrash
         end
       end
-    else Ok (lit "split_by_value", [fld "mainarg_expression" (PS (sw_operand r))])
+    else Ok (lit "split_by_value", [fld "mainarg_expression" (PS (sw_operand r))] ++ split_save_name (sw_result r))
   end.
 
 Definition node_kwargs (n : node) : res (option (str * pay)) :=
   match n_kind n with
   | NRouter KSwitch r => do kw <- router_kwargs r; Ok (Some kw)
-  | NRandom _ _ => Ok (Some (lit "split_random", []))
+  | NRandom result _ => Ok (Some (lit "split_random", split_save_name result))
   | _ => Ok None
   end.
 
@@ -350,15 +362,42 @@ Fixpoint category_pairs (r : srouter) (last : tid) (cats : list category) (cover
     end
   end.
 
+(* the repaired loop ([pairs_follow_cases], finding cases-sharing-a-category): one pair per case, in
+   the order of the cases; the category of a case is the first of get_categories() with its uuid; a
+   case whose category does not exist gives no pair *)
+Fixpoint case_pairs (r : srouter) (last : tid) (cats : list category) (cases : list rcase) (covered : list U)
+  : res (pairs * list U) :=
+  match cases with
+  | [] => Ok ([], covered)
+  | k :: rest =>
+    match find (fun c => ueqb (k_cat k) (c_uuid c)) cats with
+    | None => case_pairs r last cats rest covered
+    | Some c =>
+      do cd <- case_cond r k c;
+      do more <- case_pairs r last cats rest (c_uuid c :: covered);
+      Ok ((c_dest c, {| e_from := last; e_cond := cd |}) :: fst more, snd more)
+    end
+  end.
+
+(* [loose_exit_rows] (finding unconnected-non-default-category): the No Response category comes
+   with the row; with the repair it gives no pair when it leads nowhere *)
+Definition noresp_pairs (r : srouter) (last : tid) : pairs :=
+  match sw_noresp r with
+  | Some c =>
+    match c_dest c with
+    | None => if loose_exit_rows then [] else [(c_dest c, {| e_from := last; e_cond := value_cond (c_name c) |})]
+    | Some _ => [(c_dest c, {| e_from := last; e_cond := value_cond (c_name c) |})]
+    end
+  | None => []
+  end.
+
 Definition switch_pairs (r : srouter) (last : tid) : res pairs :=
-  do pc <- category_pairs r last (all_categories r) [];
+  do pc <- (if pairs_follow_cases then case_pairs r last (all_categories r) (sw_cases r) []
+            else category_pairs r last (all_categories r) []);
   Ok (fst pc
       ++ (if mem_u (c_uuid (sw_default r)) (snd pc) then []
           else [(c_dest (sw_default r), {| e_from := last; e_cond := no_cond |})])
-      ++ match sw_noresp r with
-         | Some c => [(c_dest c, {| e_from := last; e_cond := value_cond (c_name c) |})]
-         | None => []
-         end).
+      ++ noresp_pairs r last).
 
 Definition exit_edge_pairs (n : node) (last : tid) : res pairs :=
   match n_kind n with
@@ -416,6 +455,31 @@ Definition step (rec : node -> edge tid -> state -> res state) (st : state) (p :
     end
   end.
 
+(* [loose_exit_rows]: an edge that leads nowhere but carries a condition, leaving a node whose
+   cases/categories exist only through such edges (BaseNode.has_free_cases: a switch router node, a
+   random router node), is kept by a loose_exit row; its temporary id is
+   "<fresh uuid>|exit.<short name of the node>" *)
+Definition has_free_cases (n : node) : bool :=
+  match n_kind n with NRouter KSwitch _ | NRandom _ _ => true | _ => false end.
+Definition cond_blank (c : cond) : bool :=
+  match cd_value c with
+  | PV (VS v) => negb (nonempty v) && negb (nonempty (cd_variable c)) && negb (nonempty (cd_type c)) && negb (nonempty (cd_name c))
+  | _ => false
+  end.
+Definition loose_row (k : nat) (sn : str) (e : edge tid) : row tid :=
+  {| r_id := TGoto k (lit "exit." ++ sn); r_type := lit "loose_exit"; r_edges := [e]; r_goto := []; r_pay := [] |}.
+
+Definition step_fx (keep : bool) (sn : str) (rec : node -> edge tid -> state -> res state) (st : state)
+           (p : option U * edge tid) : res state :=
+  match fst p with
+  | None =>
+    if keep && negb (cond_blank (e_cond (snd p)))
+    then Ok {| st_vis := st_vis st; st_done := st_done st;
+               st_rows := loose_row (st_k st) sn (snd p) :: st_rows st; st_k := S (st_k st) |}
+    else Ok st
+  | Some _ => step rec st p
+  end.
+
 Fixpoint visit (fuel : nat) (n : node) (pe : edge tid) (st : state) : res state :=
   match fuel with
   | O => Err EFuel
@@ -423,7 +487,7 @@ Fixpoint visit (fuel : nat) (n : node) (pe : edge tid) (st : state) : res state 
     do sn <- short_name n;
     do rms <- initiate_row_models n sn pe;
     do prs <- exit_edge_pairs n (last_row_id n sn);
-    do st' <- foldM (step (visit fuel'))
+    do st' <- foldM (step_fx (loose_exit_rows && has_free_cases n) sn (visit fuel'))
                     (rev prs)
                     {| st_vis := n_uuid n :: st_vis st; st_done := st_done st; st_rows := st_rows st; st_k := st_k st |};
     Ok {| st_vis := st_vis st'; st_done := n_uuid n :: st_done st'; st_rows := rms ++ st_rows st'; st_k := st_k st' |}
@@ -591,10 +655,11 @@ Arguments tid_eqb {U}. Arguments tid_short {U}. Arguments action_short {U}. Argu
 Arguments case_arg0 {U}. Arguments case_arg1 {U}. Arguments short_name {U}. Arguments router_kwargs {U}.
 Arguments node_kwargs {U}. Arguments node_base_pay {U}. Arguments action_rows {U}. Arguments initiate_row_models {U}.
 Arguments last_row_id {U}. Arguments cond_arg {U}. Arguments case_cond {U}. Arguments mem_u {U}. Arguments all_categories {U}.
-Arguments category_pairs {U}. Arguments switch_pairs {U}. Arguments exit_edge_pairs {U}. Arguments find_node {U}.
+Arguments category_pairs {U}. Arguments case_pairs {U}. Arguments noresp_pairs {U}. Arguments switch_pairs {U}. Arguments exit_edge_pairs {U}. Arguments find_node {U}.
 Arguments prepend_edge {U}. Arguments goto_row {U}. Arguments step {U}. Arguments visit {U}. Arguments start_edge {U}.
 Arguments state0 {U}. Arguments to_rows_tmp {U}. Arguments mget {U}. Arguments mset {U}. Arguments build_map {U}.
 Arguments remap_edge {U}. Arguments remap_row {U}. Arguments idmap0 {U}. Arguments to_rows {U}. Arguments edge_cells {U}.
 Arguments edges_cells {U}. Arguments row_cells {U}. Arguments strip_cells {U}. Arguments export {U}. Arguments close_cell {U}.
 Arguments close_cells {U}. Arguments close_sheet {U}. Arguments export_strip {U}. Arguments router_ok {U}.
 Arguments node_ok {U}. Arguments flow_ok {U}. Arguments case_ok {U}. Arguments case_wf {U}. Arguments node_wf {U}. Arguments flow_wf {U}.
+Arguments split_save_name {U}. Arguments has_free_cases {U}. Arguments cond_blank {U}. Arguments loose_row {U}. Arguments step_fx {U}.
